@@ -202,6 +202,8 @@ def c12(case):
             attrs = trs_attrs_from_obj(o)
         else:
             s = a["s"]
+            for w in a.get("warm") or []:      # strings the process has handled just before (a warm cache)
+                pytrs.TRS(w)
             if ch == "TRS":
                 o = pytrs.TRS(s)
                 out, attrs = o.trs, trs_attrs_from_obj(o)
@@ -225,10 +227,11 @@ def c12(case):
 # ---------------------------------------------------------------------------
 # C17: custom_sort / sort_tracts
 
-def _trs_from_shape(e):
+def _trs_from_shape(e, upper=False):
     def tr(c):
         if c["k"] == "num":
-            return "%d%s" % (c["n"], c["d"])
+            # (direction letters may be written in upper case: the same Twp/Rge)
+            return "%d%s" % (c["n"], c["d"].upper() if upper else c["d"])
         return "XXXz" if c["k"] == "err" else "___z"
     s = e["sec"]
     sec = "%02d" % s["n"] if s["k"] == "num" else ("XX" if s["k"] == "err" else "__")
@@ -241,14 +244,15 @@ def c17(case):
     elems = a["elems"]            # abstract elements in list order, each with 'uid' (creation rank)
     container = a["container"]    # TractList | TRSList | PLSSDesc
     try:
+        up = a.get("upper") or [False] * len(elems)
         if container == "TRSList":
-            objs = [pytrs.TRS(_trs_from_shape(e)) for e in elems]
+            objs = [pytrs.TRS(_trs_from_shape(e, up[j])) for j, e in enumerate(elems)]
             lst = pytrs.TRSList(objs)
         else:
             by_uid = sorted(range(len(elems)), key=lambda j: elems[j]["uid"])
             made = {}
             for j in by_uid:      # create in uid order so that creation order == uid order
-                made[j] = pytrs.Tract("NE/4", trs=_trs_from_shape(elems[j]))
+                made[j] = pytrs.Tract("NE/4", trs=_trs_from_shape(elems[j], up[j]))
             objs = [made[j] for j in range(len(elems))]
             lst = pytrs.TractList(objs)
         ids = {id(o): j + 1 for j, o in enumerate(objs)}
@@ -321,7 +325,11 @@ def c20(case):
         except Exception as e:  # noqa
             r["a_exc"] = type(e).__name__
         try:
-            db = pytrs.PLSSDesc(a["text"], config=a.get("cfg_b"))
+            if a.get("kw_b"):          # the second parse: configured object, then parse(**keywords)
+                db = pytrs.PLSSDesc(a["text"], config=a.get("cfg_b"), wait_to_parse=True)
+                db.parse(**a["kw_b"])
+            else:
+                db = pytrs.PLSSDesc(a["text"], config=a.get("cfg_b"))
             r["b"] = _pairs(db.tracts, table)
             r["raw_b"] = [(t.trs, t.desc) for t in db.tracts][:10]
             w = a.get("warning")
@@ -333,7 +341,11 @@ def c20(case):
         return r
     if mode == "fallback":
         try:
-            d = pytrs.PLSSDesc(a["text"], config=a.get("cfg"))
+            if a.get("kw"):
+                d = pytrs.PLSSDesc(a["text"], config=a.get("cfg"), wait_to_parse=True)
+                d.parse(**a["kw"])
+            else:
+                d = pytrs.PLSSDesc(a["text"], config=a.get("cfg"))
             return {"exc": "none", "n": len(d.tracts), "whole": bool(d.tracts) and d.tracts[0].desc == d.pp_desc,
                     "raw": [(t.trs, t.desc) for t in d.tracts][:6]}
         except Exception as e:  # noqa
@@ -596,7 +608,8 @@ def c13_codec(case):
             if a.get("bare_layout") and "layout" in setd:
                 toks = [t if not t.startswith("layout.") else t[7:] for t in toks]
             sep = a.get("sep", ",")
-            c = pytrs.Config(sep.join(toks))
+            pad = a.get("pad", "")
+            c = pytrs.Config(pad + sep.join(toks) + pad)       # blanks / line breaks around the text are no setting
         elif a["via"] == "dict":
             c = pytrs.Config.from_dict({s: _cfg_py(s, v) for s, v in setd.items()})
         else:
@@ -763,7 +776,8 @@ def c13_scenario(case):
 # ---------------------------------------------------------------------------
 # C14: object life-cycles
 
-C14_PLSS_TEXT = "T154-R97W Sec 15 NE, Lots 1, 1, N/2, Sec 14 Lots 5 - 3, NE, Sec 20 - 21 Lots 2, 2, NE"
+C14_PLSS_TEXT = ("T154-R97W Sec 15 NE, Lots 1, 1, N/2, Sec 14 Lots 5 - 3, NE, Sec 20 - 21 Lots 2, 2, NE, "
+                 "Township lS5 North, Range 98 West Sec 1 NE")      # (the last Twp/Rge: only the OCR pattern reads it)
 # (which duplicate flags there are depends on clean_qq and on the depth, so stale flags are visible)
 C14_TRACT_TEXT = "Lots 1, 1, 5 - 3, NE, NE/4, N/2NE/4, SW"
 _SETTING_ATTRS = ["default_ns", "default_ew", "layout", "wait_to_parse", "parse_qq", "clean_qq", "sec_colon_required",
@@ -851,6 +865,8 @@ def c14(case):
                         k["default_ns"] = kw["ns"]
                     if kw.get("lay", "-") != "-":
                         k["layout"] = kw["lay"]
+                    if kw.get("ocr", "-") != "-":
+                        k["ocr_scrub"] = True
                     r = obj.parse(commit=op["commit"], **k)
                     ret = (tuple(snap_tract(t)[:16] for t in r),)
                 elif name == "parse_tracts":
